@@ -617,6 +617,29 @@ def _native_roundtrip(tier="quick", seed=0):
         doc = etree.fromstring(z.read("docProps/core.xml"))
         ok = schema.validate(doc)
         rec("C18.native.core_xml_schema_valid", ok, None if ok else str(schema.error_log.last_error), "core-xml-invalid")
+    # whatever datetime is assigned (naive, time-zone aware, with microseconds, any year), the text written is a W3CDTF / xs:dateTime
+    import re as _re
+
+    bad = None
+    tzs = [None, dt.timezone.utc, dt.timezone(dt.timedelta(hours=5, minutes=30)), dt.timezone(dt.timedelta(hours=-8)), dt.timezone(dt.timedelta(0), "GMT")]
+    from pptx.oxml.ns import qn as _qn
+
+    cpx = Presentation().core_properties
+    for tz in tzs:
+        for base_ in (dt.datetime(2020, 1, 2, 3, 4, 5), dt.datetime(999, 12, 31, 23, 59, 59, 999999), dt.datetime(1, 1, 1, 0, 0, 0), dt.datetime(9999, 6, 15, 12, 0, 0, 1)):
+            v = base_.replace(tzinfo=tz)
+            for attr, tag in (("created", "dcterms:created"), ("modified", "dcterms:modified"), ("last_printed", "cp:lastPrinted")):
+                evals += 1
+                try:
+                    setattr(cpx, attr, v)
+                except (ValueError, TypeError):
+                    continue
+                text = cpx._element.find(_qn(tag)).text
+                if not _re.fullmatch(r"-?\d{4,}-\d\d-\d\dT\d\d:\d\d:\d\d(\.\d+)?(Z|[+-]\d\d:\d\d)?", text or ""):
+                    bad = bad or "%s = %r is written as %r, which is not an xs:dateTime / W3CDTF value" % (attr, v, text)
+                elif getattr(cpx, attr) is None:
+                    bad = bad or "%s = %r is written as %r and reads back None" % (attr, v, text)
+    rec("C18.native.datetime_text_is_w3cdtf", bad is None, bad, "datetime-lexical")
     w = _w3cdtf_forms_misread()
     evals += 3 * len(W3CDTF_FORMS)
     rec("C18.native.w3cdtf_spellings_read_as_utc", w is None, w, "w3cdtf-form")
